@@ -148,8 +148,64 @@ def c13(tier, seed):
         vio_paths.append(path)
         lines.append(f"VIOLATION property={pid} replay={path}")
 
-    # --- obligations
+    # --- rejection names the offending line / nothing is skipped: solver-chosen accepted lines assembled into three-line texts
+    # with one line corrupted (a corruption is used only if the real parser rejects the corrupted line on its own), joined by
+    # LF, CRLF and CR, with and without leading blank/comment lines; run through the REAL parser (concrete, not a solver claim)
+    err_recs, err_meta = [], []
+    exs = []
+    for r in results:
+        for a in (r.get("examples") or [])[:4]:
+            if a not in exs:
+                exs.append(a)
+    cand = []
+    for a in exs:
+        toks = a.split(" ")
+        cs = [a + " @", a.replace("2024-01-01", "2024-02-31", 1), a.replace("2024-01-01", "2024-13-01", 1), a + " XQZ", a + " 7"]
+        if len(toks) > 3:
+            cs.append(" ".join(toks[:3] + ["?"] + toks[3:]))
+            cs.append(" ".join(toks[:-1]))
+            cs.append(" ".join(toks[:2] + toks[3:]))
+        cand += [(a, c) for c in cs if c != a]
+    alone = symx.run_replay("C13parse", [{"id": f"a{i}", "base": "2024-01-10", "lines": [], "opts": {"texts": [c]}, "values": {}} for i, (a, c) in enumerate(cand)], "c13alone") if cand else []
+    bad_lines = [(a, c) for (a, c), rr in zip(cand, alone) if not rr["extra"]["results"][0]["accepted"]]
+    for a, c in bad_lines:
+        for sep, sepname in (("\n", "LF"), ("\r\n", "CRLF"), ("\r", "CR")):
+            for pre, k in (([], 0), (["", "# note"], 2)):
+                for pos in (0, 1, 2):
+                    ls = [a, a, a]
+                    ls[pos] = c
+                    text = sep.join(pre + ls) + (sep if pos != 2 else "")
+                    err_recs.append({"id": f"l{len(err_recs)}", "base": "2024-01-10", "lines": [], "opts": {"texts": [text], "mode": "error-line", "expect_line": k + pos + 1}, "values": {}})
+                    err_meta.append((sepname, text))
+    for a in exs:
+        for sep, sepname in (("\n", "LF"), ("\r\n", "CRLF"), ("\r", "CR")):
+            text = sep.join(["# head", a, "", a + " # t", "\t", a.lower()])
+            err_recs.append({"id": f"l{len(err_recs)}", "base": "2024-01-10", "lines": [], "opts": {"texts": [text], "mode": "count", "expect_n": 3}, "values": {}})
+            err_meta.append((sepname, text))
+    err_bad = []
+    if err_recs:
+        for rec, (sepname, text), rr in zip(err_recs, err_meta, symx.run_replay("C13parse", err_recs, "c13err")):
+            for o in rr["obs"]:
+                if o["v"] == "R":
+                    err_bad.append((rec, sepname, o, rr))
     known = findings.load()
+    known_hit = {}
+    shown = 0
+    for rec, sepname, o, rr in err_bad:
+        f = next((k for k in known.get("known", []) if k["property"] == pid and k.get("role") == "cr-only-line-numbering" and sepname == "CR" and o["n"] == "C13.error-names-the-offending-line"), None)
+        if f:
+            known_hit[f["id"]] = f
+            continue
+        if shown < 5:
+            shown += 1
+            path = os.path.join(EVID, "replays", f"{pid}-{len(vio_paths)}.json")
+            json.dump({"property": pid, "harness_prop": "C13parse", "obligation": o["n"], "line_ends": sepname, "record": rec, "parser": rr["extra"], "detail": o["why"]}, open(path, "w"), indent=1)
+            vio_paths.append(path)
+            lines.append(f"VIOLATION property={pid} replay={path}")
+    for f in known_hit.values():
+        lines.append(f"KNOWN-FINDING: property={pid} {f['id']} {f['what']}")
+
+    # --- obligations
     n_ob = n_dis = 0
     samples = []
     replayed = reproduced = 0
@@ -197,9 +253,10 @@ def c13(tier, seed):
             "obligations": n_ob, "discharged": n_dis, "corpus_strings_agreeing": agree, "corpus_strings_disagreeing": disagree,
             "counterexamples_replayed": replayed, "counterexamples_reproduced": reproduced,
             "solver_chosen_lines_with_variants_through_real_parser": len(ex_pairs), "of_which_parsed_differently": len(ex_bad),
+            "corrupted_three_line_texts_through_real_parser": len(err_recs), "of_which_not_rejected_on_the_corrupted_line_or_miscounted": len(err_bad),
             "functions_encoded": ["crates/cgt-core/src/parser.pest (every rule, read through pest_meta's own parser)", "match_nodes! arms of crates/cgt-core/src/parser.rs (pest_consume node matching)"],
             "bounds": f"(DIVIDEND: letter case and trailing comment also at length <= 36 in the quick tier) all byte strings (bytes < 0x80) of length <= {L} that start with the date 2024-01-01, one of the keywords {kws} in any letter case and a blank, and contain no line break or '#'; related to a second string by one lexical edit: appended ' #x' comment, one more space/tab at a symbolic position, upper-casing, appended LF / CR / CRLF, a preceding full-line comment, a preceding blank line; and an appended stray ' @' must make it rejected",
-            "outside_claim": ["lines longer than the bound (ACCUMULATION/CAPRETURN need the thorough tier)", "dates other than the fixed literal", "bytes >= 0x80", "rejection of corrupted text with the error on the offending line", "semantic actions other than node matching (decimal/currency/date conversion)"],
+            "outside_claim": ["lines longer than the bound (ACCUMULATION/CAPRETURN need the thorough tier)", "dates other than the fixed literal", "bytes >= 0x80", "rejection of corrupted text with the error on the offending line is checked on concrete three-line texts built from solver-chosen lines (samples through the real parser, not a solver claim)", "semantic actions other than node matching (decimal/currency/date conversion)"],
             "solver": "z3 5.1 (QF_BV), one process per keyword", "solver_seconds": round(sum(o["s"] for r in results for o in r.get("obligations", [])), 1),
             "encode_seconds": [r.get("encode_s") for r in results],
             "explanation": "; ".join(inconclusive) if inconclusive else "all obligations discharged (unsat) and the encoding agrees with the real parser on the whole corpus",
